@@ -352,10 +352,10 @@ pub fn property() -> Property {
             Sub::Custom(CustomSub { name: "corpus", run: corpus_all, replay: replay_text }),
             Sub::Custom(CustomSub { name: "repeats", run: repeats, replay: replay_repeat }),
             Sub::Custom(CustomSub { name: "enumerate", run: enumerate, replay: replay_enumerated }),
-            Sub::Bytes(BytesSub { name: "tree-shape", f: tree_shape, max_len: 1500, quick: Budget { threads: 8, cases: 3000 }, thorough: Budget { threads: 16, cases: 100_000 }, keep_unreproducible: false }),
-            Sub::Bytes(BytesSub { name: "unparen", f: unparen, max_len: 1500, quick: Budget { threads: 8, cases: 4000 }, thorough: Budget { threads: 16, cases: 150_000 }, keep_unreproducible: false }),
+            Sub::Bytes(BytesSub { name: "tree-shape", f: tree_shape, max_len: 1500, quick: Budget { threads: 16, cases: 8000 }, thorough: Budget { threads: 16, cases: 100_000 }, keep_unreproducible: false }),
+            Sub::Bytes(BytesSub { name: "unparen", f: unparen, max_len: 1500, quick: Budget { threads: 16, cases: 8000 }, thorough: Budget { threads: 16, cases: 150_000 }, keep_unreproducible: false }),
             Sub::Custom(CustomSub { name: "fuzz-syntax_diff", run: fuzz_run, replay: fuzz_replay }),
-            Sub::Bytes(BytesSub { name: "mutant-sentences", f: mutant_sentences, max_len: 1200, quick: Budget { threads: 8, cases: 5000 }, thorough: Budget { threads: 16, cases: 200_000 }, keep_unreproducible: false }),
+            Sub::Bytes(BytesSub { name: "mutant-sentences", f: mutant_sentences, max_len: 1200, quick: Budget { threads: 16, cases: 8000 }, thorough: Budget { threads: 16, cases: 200_000 }, keep_unreproducible: false }),
         ],
     }
 }
